@@ -1,6 +1,7 @@
 package outb
 
 import (
+	"strings"
 	"fmt"
 	"net"
 	"os"
@@ -242,4 +243,37 @@ func FdOf(c net.Conn) int {
 	fd := -1
 	_ = rc.Control(func(f uintptr) { fd = int(f) })
 	return fd
+}
+
+// TCPStates reports the kernel's view (state, queues) of both ends of a
+// loopback TCP connection, from /proc/net/tcp. Diagnostics only.
+func TCPStates(pc net.Conn) string {
+	la, ok1 := pc.LocalAddr().(*net.TCPAddr)
+	ra, ok2 := pc.RemoteAddr().(*net.TCPAddr)
+	if !ok1 || !ok2 {
+		return "n/a"
+	}
+	b, err := os.ReadFile("/proc/net/tcp")
+	if err != nil {
+		return "n/a"
+	}
+	names := map[string]string{"01": "ESTABLISHED", "02": "SYN_SENT", "03": "SYN_RECV", "04": "FIN_WAIT1", "05": "FIN_WAIT2", "06": "TIME_WAIT", "07": "CLOSE", "08": "CLOSE_WAIT", "09": "LAST_ACK", "0A": "LISTEN", "0B": "CLOSING"}
+	lp, rp := fmt.Sprintf(":%04X", la.Port), fmt.Sprintf(":%04X", ra.Port)
+	out := ""
+	for _, l := range strings.Split(string(b), "\n") {
+		f := strings.Fields(l)
+		if len(f) < 10 {
+			continue
+		}
+		if strings.HasSuffix(f[1], lp) && strings.HasSuffix(f[2], rp) {
+			out += " peer-side=" + names[f[3]] + " tx:rx=" + f[4]
+		}
+		if strings.HasSuffix(f[1], rp) && strings.HasSuffix(f[2], lp) {
+			out += " nbio-side=" + names[f[3]] + " tx:rx=" + f[4]
+		}
+	}
+	if out == "" {
+		return "no such connection in /proc/net/tcp"
+	}
+	return out
 }
